@@ -17,6 +17,7 @@ fn main() {
   std::panic::set_hook(Box::new(|_| {}));
   let mut heap = Heap::new();
   let mut handles: std::collections::HashMap<String, PStr> = std::collections::HashMap::new();
+  let mut counter: Option<samlang_heap::TempPStrCounter> = None;
   let mut mods: Vec<ModuleReference> =
     vec![ModuleReference::ROOT, ModuleReference::DUMMY, ModuleReference::STD_TUPLES];
   let mod_index = |mods: &mut Vec<ModuleReference>, m: ModuleReference| -> usize {
@@ -33,6 +34,7 @@ fn main() {
       "reset" => {
         heap = Heap::new();
         handles.clear();
+        counter = None;
         mods = vec![ModuleReference::ROOT, ModuleReference::DUMMY, ModuleReference::STD_TUPLES];
         "ok".to_string()
       }
@@ -52,6 +54,26 @@ fn main() {
         handles.insert(t[1].to_string(), p);
         show(&heap, p)
       }
+      "tc" => {
+        // create_temp_counter: hands out `_t<id>` for ids from the current table length
+        counter = Some(heap.create_temp_counter());
+        "ok".to_string()
+      }
+      "tca" => match &counter {
+        Some(c) => {
+          let p = c.alloc_temp_str();
+          handles.insert(t[1].to_string(), p);
+          show(&heap, p)
+        }
+        None => "skip".to_string(),
+      },
+      "tcs" => match counter.take() {
+        Some(c) => {
+          heap.sync_temp_counter(&c);
+          "ok".to_string()
+        }
+        None => "skip".to_string(),
+      },
       "am" => {
         if t[1..].iter().any(|s| !handles.contains_key(*s)) {
           return "skip".to_string();
